@@ -1,25 +1,29 @@
 #!/bin/sh
-# Extracts the Coq models to ocaml/gen/*.ml and builds the runner executables (ocaml/*_run.ml).
+# usage: ocaml/build.sh <exe>...      (default: every *_run.ml)
+# For each <exe>: extracts ocaml/extract/<exe>.v into ocaml/gen/<exe>/ (when a .vo or the extraction
+# file is newer than the last extraction) and builds ocaml/<exe>.ml (+ util.ml) with ocamlbuild into
+# .cache/ocamlbuild/<exe>/<exe>.native.  Independent per executable: safe to run in parallel.
 set -e
 cd "$(dirname "$0")"
-mkdir -p gen
-stamp=gen/.stamp
-need=0
-[ -f $stamp ] || need=1
-if [ $need -eq 0 ]; then
-  for f in Extract.v $(find ../coq -name '*.vo'); do
-    if [ "$f" -nt $stamp ]; then need=1; break; fi
-  done
-fi
-if [ $need -eq 1 ]; then
-  rm -f gen/*.ml gen/*.mli
-  (cd gen && coqc -Q ../../coq RH ../Extract.v >/dev/null && rm -f ../Extract.vo ../Extract.glob ../.Extract.aux ../Extract.vos ../Extract.vok)
-  touch $stamp
-fi
-targets=""
 if [ $# -eq 0 ]; then
-  for f in *_run.ml; do targets="$targets ${f%.ml}.native"; done
-else
-  for t in "$@"; do targets="$targets $t.native"; done
+  set -- $(for f in *_run.ml; do echo "${f%.ml}"; done)
 fi
-ocamlbuild -quiet -use-ocamlfind -I gen -build-dir ../.cache/ocamlbuild -cflags -w,-a -j 8 $targets
+for exe in "$@"; do
+  gen=gen/$exe
+  mkdir -p "$gen"
+  stamp=$gen/.stamp
+  need=0
+  [ -f "$stamp" ] || need=1
+  if [ $need -eq 0 ]; then
+    for f in extract/$exe.v $(find ../coq -name '*.vo'); do
+      if [ "$f" -nt "$stamp" ]; then need=1; break; fi
+    done
+  fi
+  if [ $need -eq 1 ]; then
+    rm -f "$gen"/*.ml "$gen"/*.mli
+    cp extract/$exe.v "$gen/Extract_$exe.v"
+    (cd "$gen" && coqc -Q ../../../coq RH "Extract_$exe.v" >/dev/null && rm -f Extract_$exe.* .Extract_$exe.aux)
+    touch "$stamp"
+  fi
+  ocamlbuild -quiet -use-ocamlfind -I "$gen" -build-dir "../.cache/ocamlbuild/$exe" -cflags -w,-a $exe.native
+done
